@@ -547,6 +547,56 @@ func runC15Clear(c *Ctx) {
 		eT := TVar(lp[0])
 		fSrc := p.Field("group", "ChatHistoryEntry", "Source")
 		fId := p.Field("group", "ChatHistoryEntry", "Id")
+		// the predicate decided return by return: where it can answer true the entry is the
+		// user's and (no id was given or it is that id); where it can answer false it is not
+		{
+			A := mkFact(true, "eq", TField(eT, fSrc), userT)
+			B := mkFact(true, "eq", TStr(""), idT)
+			C := mkFact(true, "eq", TField(eT, fId), idT)
+			nacc, nrej, good := 0, 0, true
+			for _, ret := range lff.Returns() {
+				if len(ret.Results) != 1 {
+					good = false
+					continue
+				}
+				st, _ := lff.At(ret)
+				if st == nil {
+					continue
+				}
+				var acc, rej []*State
+				if tv := info.Types[ret.Results[0]]; tv.Value != nil {
+					if tv.Value.String() == "true" {
+						acc = []*State{st}
+					} else {
+						rej = []*State{st}
+					}
+				} else {
+					acc = lff.edgeVariants(st, ret.Results[0], true)
+					rej = lff.edgeVariants(st, ret.Results[0], false)
+				}
+				for _, v := range acc {
+					if v == nil || contradictory(v) {
+						continue
+					}
+					nacc++
+					if !(v.HasFact(A) && (v.HasFact(B) || v.HasFact(C))) {
+						good = false
+					}
+				}
+				for _, v := range rej {
+					if v == nil || contradictory(v) {
+						continue
+					}
+					nrej++
+					if !(v.HasFact(complement(A)) || (v.HasFact(complement(B)) && v.HasFact(complement(C)))) {
+						good = false
+					}
+				}
+			}
+			if good && nacc > 0 && nrej > 0 {
+				okPred = true
+			}
+		}
 		for _, ret := range lff.Returns() {
 			if len(ret.Results) != 1 {
 				continue
